@@ -129,7 +129,7 @@ class FlatBody(Family):
 
     def eval(self, scene):
         a, b = scene
-        cell, viols = eval_inter('C02', self.name, a, b, forms=('fn',), measures=True)
+        cell, viols = eval_inter('C02', self.name, a, b, forms=('fn',), measures=True, reuse_first=(a[0] in X.BODY))
         if cell.startswith('skip:'):
             return cell, viols
         f, K = (a, b) if b[0] in X.BODY else (b, a)
